@@ -135,6 +135,9 @@ def cases():
     add("inst-slice+ctx-other-slice", "reject", ["Sub(i=self.d, x=s, y=s2, xb=sb[1:0])"], fn(SEQ, "p1", "sb[3:2] <<= self.d[1:0]"))
     add("inst-output-to-port+ctx", "reject", ["Sub(i=self.d, x=self.o2, y=s2, xb=sb[1:0])"], fn(SEQ, "p1", "self.o2 <<= 1"))
     add("inst-output-to-input-port", "reject", ["Sub(i=self.d, x=self.d, y=s2, xb=sb[1:0])"])
+    add("inst-output-to-output-port", "accept", ["Sub(i=self.d, x=self.o2, y=s2, xb=sb[1:0])"])
+    add("inst-output-to-output-port-read-back", "accept", ["Sub(i=self.d, x=self.o2, y=s2, xb=sb[1:0])"], fn(SEQ, "p1", "nonlocal s", "s <<= self.o2"))
+    add("inst-outputs-to-two-output-ports", "accept", ["Sub(i=self.d, x=self.o2, y=self.o, xb=sb[1:0])"], observe=False)
     # --- input ports -----------------------------------------------------------------------------------
     add("write-input:seq", "reject", fn(SEQ, "p1", "self.d <<= 1"))
     add("write-input:conc", "reject", fn(CON, "c1", "self.a <<= self.b"))
